@@ -45,3 +45,4 @@ def run(ctx, R):
     x86hsem.rule_fp_hsem(ctx, R)
     x86hsem.rule_cbranch(ctx, R)
     cgsize.rule_x86(ctx, R, FI)    # the program area holds the largest program: an overflow would overwrite the SuperscalarHash routine the light-mode loop calls
+    genreset.rule_ctor_init(ctx, R, 'x86')
